@@ -29,18 +29,17 @@ CORE_ASSUME = [
     "pointer identity of input slices (ptr::eq in Position::span) is not modelled: value equality of the input is proved instead",
     "functions with ASSUMED contracts (external_body; not proved): CallLimitTracker::limit_reached/default, ParseAttempts::new/try_add_new_stack_rule, BorrowedOrArc::as_str, SpanOrLiteral::as_borrowed_or_rc, Position::span, constrain_idxs, stack_match_peek_slice, Error::new_from_pos*, pairs::new (verified in the pairs unit)",
     "partial correctness for ParserState::repeat (it legitimately diverges on non-progressing closures)",
-    "configuration verified: feature memchr OFF (skip_until -> skip_until_basic); debug_assertions ON (debug_assert operands are proved)",
+    "configurations: C03 is verified twice, with feature memchr OFF (skip_until -> skip_until_basic) and ON (memmem / memchr2 / memchr3 arms under the memchr crate's documented contract, declared on a stand-in module: ASSUMED dependency contract); the other properties use the memchr-OFF configuration; debug_assertions ON (debug_assert operands are proved)",
 ]
 CORE_NOT_COVERED = [
     "ParserState::stack_push_literal (generic Into<Cow<'static,str>> conversion) and stack_match_peek_slice's matcher (iterator adaptors + closure capturing &mut): contract assumed, not proved",
-    "the memchr-accelerated arms of Position::skip_until (configuration feature=memchr) are not yet under contract",
     "Result::and_then / or_else are std, not pest; they appear only through the closure laws",
 ]
 
 PROPS["C03"] = dict(
     title="Parser-state combinators are all-or-nothing and match exactly",
-    verus_units=[("core", {}, "")],
-    kani=[], searcher=None,
+    verus_units=[("core", {}, ""), ("core", {"feature.memchr": True}, "memchr")],
+    kani=[], searcher="prims",
     design_ref="DESIGN.md section 5, C03",
     technique="contract-based deductive verification (Verus): frame law with closure laws on every ParserState combinator, exact functional contracts on the Position matchers over vstd's UTF-8 theory; real code extracted from /repo each run",
     level_text="Unbounded proof for all call trees built from lawful closures and all inputs: every public ParserState operation is verified against the frame law (input, flags, snapshots below entry depth and earlier tokens untouched) given that its closure arguments obey it; failed sequence / any lookahead restore position, tokens (up to node tags, finding F2) and stack; rule emits exactly one balanced Start/End pair around its body's tokens iff it succeeds outside lookahead/atomic; match_string/insensitive/range/char_by/skip/skip_until_basic have exact iff/advance/stay/boundary postconditions proved from vstd's UTF-8 definitions.",
